@@ -76,7 +76,7 @@ def main():
                                        base_commit=subprocess.run("git -C /repo rev-parse --short HEAD", shell=True, capture_output=True, text=True).stdout.strip()),
                         what_i_ran=["cd <scratch worktree> && /venv/bin/python demo.py (clean, then with patch.diff applied)", "/venv/bin/python -m pytest -q -p no:cacheprovider --timeout=900 on the changed tree",
                                     "./check <property> with TAWAZI_REPO pointing at the changed tree (equivalent to git -C /repo apply; checks; git -C /repo checkout -- .)"],
-                        detection={c: dict(detected=v["rc"] != 0, lines=v["lines"][:6]) for c, v in out["checks"].items()})
+                        detection={c: dict(detected=any(l.startswith("VIOLATION") for l in v["lines"]), lines=v["lines"][:6]) for c, v in out["checks"].items()})
             json.dump(meta, open(os.path.join(dst, "meta.json"), "w"), indent=1)
         out.pop("effective_patch", None)
         print(json.dumps(out, indent=1))
